@@ -153,7 +153,15 @@ func traceLookup(t *testing.T, o opts) {
 					}
 					if c.cancel >= 0 {
 						var cf context.CancelFunc
-						ctx, cf = context.WithCancel(ctx)
+						if i%2 == 1 {
+							// cancelled with a cause of the caller's own (an errgroup sibling failed, a
+							// supervisor gave a reason): to everyone else it is still just a cancellation
+							var cc context.CancelCauseFunc
+							ctx, cc = context.WithCancelCause(ctx)
+							cf = func() { cc(errors.New("caller-private reason")) }
+						} else {
+							ctx, cf = context.WithCancel(ctx)
+						}
 						cancels = append(cancels, cf)
 						go func() {
 							select {
